@@ -1,7 +1,7 @@
 (* Proofs/Beamformer.v -- C11: MVDR / LCMV / Souden MVDR / WMWF / reference channel.
    Everything is about the RO instance of Model/Beamformer.v; the solve results are universally
    quantified and constrained by their contract (A x = b on the index range 0..D-1). *)
-From Coq Require Import Reals Lra Lia Classical.
+From Coq Require Import Reals Lra Lia Classical FunctionalExtensionality.
 From Coquelicot Require Import Coquelicot.
 From PB Require Import Ops CLin Model.Beamformer.
 Open Scope C_scope.
@@ -248,7 +248,7 @@ Theorem wmwf_mu0_is_souden D (phi : mat) (eps : R) r i :
 Proof.
   intros Hre He Ht. rewrite wmwf_RO, souden_RO. rewrite Rmax_left by lra.
   rewrite (C_real_eq (tr D phi) Hre) at 1. rewrite <- RtoC_plus, Rplus_0_l.
-  unfold Cdiv. rewrite <- RtoC_inv by lra. ring.
+  unfold Cdiv. rewrite <- RtoC_inv by lra. asC. ring.
 Qed.
 
 Section Rank1.
@@ -263,8 +263,8 @@ Hypothesis Hphi : solves D Pn phi r1psd.                                    (* p
 Lemma rank1_phi i j : (i < D)%nat -> (j < D)%nat -> phi i j = RtoC sigma * x i * Cconj (a j).
 Proof.
   intros Hi Hj.
-  refine (posdef_solve_unique D Pn (fun i => phi i j) (fun i => (RtoC sigma * Cconj (a j)) * x i) HPn _ i Hi
-          |> (fun E => eq_trans E _)); [|ring].
+  transitivity ((RtoC sigma * Cconj (a j)) * x i); [|ring].
+  refine (posdef_solve_unique D Pn (fun i => phi i j) (fun i => (RtoC sigma * Cconj (a j)) * x i) HPn _ i Hi).
   intros k Hk. rewrite mv_scal, Hx by auto. unfold mv. rewrite (Hphi k j Hk Hj). unfold r1psd. ring.
 Qed.
 Lemma rank1_den : dot D a x = RtoC (fst (dot D a x)) /\ (0 < fst (dot D a x))%R.
@@ -280,7 +280,7 @@ Proof.
   intros He Hr Hi. destruct rank1_den as [E Hpos]. rewrite souden_RO, mvdr_RO, rank1_tr, rank1_phi by auto.
   cbn [fst RtoC]. assert (0 < sigma * fst (dot D a x))%R by (apply Rmult_lt_0_compat; auto).
   rewrite Rmax_left by lra. rewrite E at 2. set (c := fst (dot D a x)) in *.
-  rewrite RtoC_inv, RtoC_mult by lra. field. split; apply RtoC_neq0; lra.
+  rewrite RtoC_inv, RtoC_mult by lra. asC. field. split; apply RtoC_neq0; lra.
 Qed.
 (* it reproduces the target at the reference channel: w^H a = a_ref *)
 Theorem souden_rank1_reference eps r : (eps <= sigma * fst (dot D a x))%R -> (r < D)%nat ->
@@ -317,8 +317,10 @@ Lemma r1psd_form D (a : vec) sigma u :
 Proof.
   rewrite RtoC_mult, <- conj_mul_self, dot_conj. unfold form, dot at 1, mv, r1psd.
   rewrite (csum_ext D _ (fun i => (Cconj (u i) * a i) * (RtoC sigma * dot D a u))).
-  2:{ intros i Hi. unfold dot. rewrite <- (csum_scal D (RtoC sigma * a i)).
-      rewrite <- csum_scal. apply csum_ext; intros; ring. }
+  2:{ intros i Hi. unfold dot.
+      rewrite (csum_ext D (fun j => RtoC sigma * a i * Cconj (a j) * u j)
+                          (fun j => (RtoC sigma * a i) * (Cconj (a j) * u j))) by (intros; ring).
+      rewrite csum_scal. ring. }
   rewrite csum_scal_r. unfold dot. ring.
 Qed.
 Lemma form_plus_scaled D (A B : mat) (mu : R) u :
@@ -385,3 +387,17 @@ Proof. unfold ref_snr. rewrite cdiv_RO, !csumO_RO.
   rewrite (csum_ext Fn _ (fun f => form D (Px f) (fun d => Wm f d r) (fun d => Wm f d r))) by (intros; apply bf_form_RO).
   rewrite (csum_ext Fn (fun f => bf_form RO D (Pn f) _ _) (fun f => form D (Pn f) (fun d => Wm f d r) (fun d => Wm f d r))) by (intros; apply bf_form_RO).
   reflexivity. Qed.
+
+(* ---------------- get_mvdr_vector as written: symmetrise, solve, normalise ---------------- *)
+Theorem mvdr_code_optimal D (Pn : mat) (a x v : vec) :
+  (forall i, (i < D)%nat -> mv D (herm_sym RO Pn) x i = a i) -> posdef D (herm_sym RO Pn) -> nonzero D a ->
+  dot D v a = 1 ->
+  (fst (form D (herm_sym RO Pn) (mvdr RO D a x) (mvdr RO D a x)) <= fst (form D (herm_sym RO Pn) v v))%R.
+Proof. intros Hx Hp Ha Hv. destruct (posdef_semidef D _ Hp) as [Hh Hs].
+  destruct (mvdr_denominator_pos D _ a x Hx Hp Ha) as [H1 H2].
+  apply (mvdr_optimal D (herm_sym RO Pn) a x Hx v Hh Hs); auto.
+  intros E. rewrite E in H2. simpl in H2. lra. Qed.
+(* on a Hermitian matrix the symmetrisation is the identity *)
+Lemma herm_sym_fix (Pn : mat) : hermitian Pn -> herm_sym RO Pn = Pn.
+Proof. intros H. apply functional_extensionality; intros i. apply functional_extensionality; intros j.
+  apply herm_sym_id; auto. Qed.
